@@ -144,6 +144,17 @@ CHECKS = {
         "independence, not the physical size of a single shift.",
         "DESIGN.md section 3 C17",
     ),
+    "C12": (
+        "exploration",
+        "exhaustive enumeration of all lengths (and all kernel lengths) against float64 direct evaluation",
+        "For every length 1..64 (256) and five data classes (constant, impulse at every position, alternating, large dynamic range, normal): "
+        "rfft().ifft() equals the zero-padded input, the spectrum equals the O(n^2) float64 DFT sum, Parseval holds, form_spec equals |bin|; "
+        "for every pair 1<=m<=n<=48 (96): fftconvolve equals np.convolve and TimeSeries.correlate (array and TimeSeries argument) equals the "
+        "full correlation. Odd and padded transform sizes are required outcome classes.",
+        "Tolerance 16*eps32*log2(n+1)*||x|| (calibrated: observed <= 0.07 of the limit on the unchanged tree; slicing/padding errors are O(||x||)). "
+        "Values from classes + VERIF_SEED; lengths above the bound not explored.",
+        "DESIGN.md section 3 C12",
+    ),
 }
 
 ENGINES = [
